@@ -150,7 +150,7 @@ func buildMethod(d *dg.Design, s *dg.Service, ms methodSpec) *dg.Method {
 			// the body is this one attribute (Body("attr")); everything else must be mapped elsewhere
 			m.HTTP.Body = &dg.BodySpec{Attr: a}
 		case loc == "inline-body":
-			// Body(func() { Attribute(a); Attribute("note") }): witness-only, see the finding inline-body-sends-whole-payload
+			// Body(func() { Attribute(a); Attribute("note") })
 			m.HTTP.Body = &dg.BodySpec{Attrs: []string{a, "note"}}
 		}
 	}
@@ -250,6 +250,9 @@ func genLocs(r *vh.RNG, kinds map[string]bool) map[string]string {
 		case c == 3 && bodyFree:
 			bodyFree = false
 			locs[a] = "body"
+			if r.Bool() {
+				locs[a] = "inline-body" // Body(func() { Attribute(a); Attribute("note") })
+			}
 		default:
 			locs[a] = "header:X-" + strings.ToUpper(a[:1]) + a[1:]
 			lastHeader = locs[a]
